@@ -760,6 +760,7 @@ def is_similar_callables(t: CallableType, s: CallableType) -> bool:
         len(t.arg_types) == len(s.arg_types)
         and t.min_args == s.min_args
         and t.is_var_arg == s.is_var_arg
+        and t.arg_kinds == s.arg_kinds
     )
 
 
